@@ -1,5 +1,5 @@
 CONSTANTS
-  MaxWord = 7807
+  MaxWord = 22807
   Maxes = {1, 2, 3, 4, 5, 8, 10, 1000}
   K = 6
 INIT Init
